@@ -588,9 +588,7 @@ class SArr(Model):
             self.get = g
         else:
             self.get = get
-        if hasattr(self, 'view_of'):
-            parent, plan = self.view_of
-            write_through(it, parent, plan, self)
+        aliased_write(it, self)
 
     def py_getattr(self, it, name):
         if name == 'shape':
@@ -617,9 +615,7 @@ class SArr(Model):
         if not shapes_equal(res.shape, self.shape):
             raise PyRaise(ExcVal('ValueError', ("non-broadcastable output operand with shape %s doesn't match the broadcast shape %s" % (self.shape, res.shape),)))
         self.get = res.get
-        if hasattr(self, 'view_of'):
-            parent, plan = self.view_of
-            write_through(it, parent, plan, self)
+        aliased_write(it, self)
         return self
 
     def py_unop(self, it, op):
@@ -674,6 +670,28 @@ class MaskedView(SArr):
 
 class MaskedViewCmp(SArr):
     pass
+
+
+def aliased_write(it, arr):
+    """after an in-place write to `arr`: propagate it to whatever arr is (or may be) a view of"""
+    if hasattr(arr, 'view_of'):
+        parent, plan = arr.view_of
+        write_through(it, parent, plan, arr)
+    if hasattr(arr, 'view_map'):
+        parent, fn = arr.view_map
+        g = arr.get
+        parent.get = lambda o: g(fn(o))
+        aliased_write(it, parent)
+    if hasattr(arr, 'maybe_view_of'):
+        parent = arr.maybe_view_of
+        if getattr(arr, '_is_view', None) is None:
+            # both behaviours of numpy are followed: 0 = the result was a copy, 1 = it was a view (the base then changes in a way
+            # that is not tracked element by element: its contents become unknown)
+            arr._is_view = bool(it.ctx.choose(2, 'reshape-result-is-a-view'))
+        if arr._is_view:
+            it.ctx.note_trusted("np.reshape / ravel may return a view: an in-place write to the result is also followed as a write to the base (contents of the base unknown afterwards)")
+            parent.havoc_inplace(it, 'aliased')
+            aliased_write(it, parent)
 
 
 def write_through(it, parent, plan, view):
@@ -881,7 +899,16 @@ def broadcast_shapes(it, sa, sb):
 
 def broadcast_to(it, arr, shape):
     out, ma, _ = broadcast_shapes(it, arr.shape, tuple(shape))
-    if not shapes_equal(out, tuple(shape)):
+    fits = len(out) == len(tuple(shape))
+    if fits:
+        for da, db in zip(out, tuple(shape)):
+            e = dim_eq(da, db)
+            if e is None:
+                e = it.ctx.branch(to_num(da) == to_num(db), 'broadcast-into-shape')     # decided by the path condition, not by syntax
+            if not e:
+                fits = False
+                break
+    if not fits:
         raise PyRaise(ExcVal('ValueError', ("could not broadcast input array from shape %s into shape %s" % (arr.shape, tuple(shape)),)))
     g = arr.get
     return SArr(shape, lambda o: g(ma(o)), arr.dtype)
@@ -977,7 +1004,9 @@ def transpose(it, a):
     if a.rank != 2:
         raise Unsupported("transpose of rank %d" % a.rank)
     g = a.get
-    return SArr((a.shape[1], a.shape[0]), lambda o: g((o[1], o[0])), a.dtype)
+    res = SArr((a.shape[1], a.shape[0]), lambda o: g((o[1], o[0])), a.dtype)
+    res.view_map = (a, lambda o: (o[1], o[0]))        # A.T is always a view: a write to it is a write to A
+    return res
 
 
 def dot(it, a, b):
@@ -1127,18 +1156,25 @@ def reshape(it, a, newshape, order='C'):
     # size check
     it.ctx.oblige("safety/reshape-size", to_num(a.size()) == to_num(SArr(newshape, None).size()))
     flat = flatten_fn(it, a, order)
+
+    def mk(get):
+        # numpy returns a VIEW of `a` whenever the memory layout allows it and a copy otherwise; which one is not visible at this
+        # level, so a later in-place write to the result is followed on both alternatives (see aliased_write)
+        res = SArr(newshape, get, a.dtype)
+        res.maybe_view_of = a
+        return res
     if len(newshape) == 1:
-        return SArr(newshape, lambda o: flat(o[0]), a.dtype)
+        return mk(lambda o: flat(o[0]))
     if len(newshape) == 2:
         r, c = newshape
         if order == 'C':
-            return SArr(newshape, lambda o: flat(o[0] * to_num(c) + o[1]), a.dtype)
-        return SArr(newshape, lambda o: flat(o[0] + o[1] * to_num(r)), a.dtype)
+            return mk(lambda o: flat(o[0] * to_num(c) + o[1]))
+        return mk(lambda o: flat(o[0] + o[1] * to_num(r)))
     if len(newshape) == 3:
         p, q, r = newshape
         if order == 'C':
-            return SArr(newshape, lambda o: flat((o[0] * to_num(q) + o[1]) * to_num(r) + o[2]), a.dtype)
-        return SArr(newshape, lambda o: flat(o[0] + to_num(p) * (o[1] + to_num(q) * o[2])), a.dtype)
+            return mk(lambda o: flat((o[0] * to_num(q) + o[1]) * to_num(r) + o[2]))
+        return mk(lambda o: flat(o[0] + to_num(p) * (o[1] + to_num(q) * o[2])))
     raise Unsupported("reshape to rank %d" % len(newshape))
 
 
@@ -1198,7 +1234,11 @@ def ravel(it, a, order='C'):
 
 def flatten(it, a, order='C'):
     r = ravel(it, a, order)
-    return r.copy() if r is a else r
+    if r is a:
+        return r.copy()
+    if hasattr(r, 'maybe_view_of'):
+        del r.maybe_view_of        # ndarray.flatten always copies
+    return r
 
 
 def np_append(it, a, b, axis=None):
@@ -1221,7 +1261,13 @@ def np_insert(it, a, pos, val):
     it.ctx.note_trusted("np.insert(a, 0, v): v followed by a (new array)")
     if pos != 0:
         raise Unsupported("np.insert at %r" % (pos,))
-    return np_append(it, as_array(it, [val]) if not isinstance(val, SArr) else val, a)
+    a = as_array(it, a)
+    v = as_array(it, [val]) if not isinstance(val, SArr) else val
+    if a.dtype == 'int' and v.dtype == 'real':
+        # the result has the dtype of the ARRAY: a float inserted into an integer array is truncated (numpy casts silently)
+        it.ctx.note_trusted("np.insert into an integer-dtype array casts the inserted value to integer (truncation toward zero)")
+        v = SArr(v.shape, (lambda g_: (lambda o: coerce_elem(g_(o), 'int')))(v.get), 'int')
+    return np_append(it, v, a)
 
 
 def np_zeros(it, shape, dtype=None, value=0):
